@@ -7,14 +7,14 @@ import ChalkModel.Lemmas.FixedPointSemK
 namespace Chalk.FixedPoint.Cyc
 
 section
-variable {c : Bool} {inst : Instance} {dom : List Nat} {rec : SubSolver} {cfg : Cfg}
+variable {c : Bool} {inst : Instance} {dom : List Nat} {fx : Bool} {rec : SubSolver} {cfg : Cfg}
 
 theorem InG.of_def_top {s : St} {j : Nat} (h : Def s j (top c)) : InG c inst s j :=
-  ⟨fun x => Def s x (top c), fun _ hx => Or.inl hx, h⟩
+  ⟨fun x => Def s x (top c), fun _ hx => Or.inl (Or.inl hx), h⟩
 
 variable {s0 st s1 : St} {g : Nat} {old cur : V} {m : Min} {new : List Node}
 
-theorem After.st_node (A : After c inst dom s0 st s1 g old cur m new) {i : Nat} {n : Node}
+theorem After.st_node (A : After c inst dom fx s0 st s1 g old cur m new) {i : Nat} {n : Node}
     (h : st.graph[i]? = some n) : i ≤ s0.graph.length ∧ s1.graph[i]? = some n := by
   rw [A.gt] at h
   cases single_cases _ _ i n h with
@@ -23,7 +23,7 @@ theorem After.st_node (A : After c inst dom s0 st s1 g old cur m new) {i : Nat} 
 
 /-- an optimistic outcome of the iteration is justified relative to the state the iteration
     started from (upper bound) -/
-theorem After.top_inG (A : After c inst dom s0 st s1 g old cur m new) (hc : cur = top c) :
+theorem After.top_inG (A : After c inst dom fx s0 st s1 g old cur m new) (hc : cur = top c) :
     J c inst (InG c inst st) g := by
   have hw : ∀ {lb : Min} {j : Nat}, Wit c inst s1 lb j →
       (∃ n : Node, n ∈ new ∧ n.goal = j ∧ n.solution = top c) ∨ InG c inst st j := by
@@ -54,12 +54,13 @@ theorem After.top_inG (A : After c inst dom s0 st s1 g old cur m new) (hc : cur 
         omega
     · rw [← hgo]
       exact J.mono (fun j hj => hw hj) (A.i1.just i n hn1 (A.hnew n hn).1 hv)
-  cases A.fact with
-  | inl h => exact J.mono (fun j hj => (hw hj).elim (hS j) id) h.2
-  | inr h => rw [hc] at h; exact absurd h.1 (top_ne_bot c)
+  rcases A.fact with h | h | h
+  · exact J.mono (fun j hj => (hw hj).elim (hS j) id) h.2
+  · rw [hc] at h; exact absurd h.1 (top_ne_bot c)
+  · rw [hc] at h; exact absurd h.1 (top_ne_ambig c)
 
 /-- after a pessimistic outcome the next iteration starts from a smaller relative fixed point -/
-theorem After.restart_sub (A : After c inst dom s0 st s1 g old cur m new) (hb : cur = bot c) {s2 : St}
+theorem After.restart_sub (A : After c inst dom fx s0 st s1 g old cur m new) (hb : cur = bot c) {s2 : St}
     (R : Rest s1 s2) (hg2 : s2.graph = s0.graph ++ [headNode s0 g cur]) :
     ∀ k, InG c inst s2 k → InG c inst st k := by
   have hnode2 : ∀ {i : Nat} {n : Node}, s2.graph[i]? = some n →
@@ -68,8 +69,8 @@ theorem After.restart_sub (A : After c inst dom s0 st s1 g old cur m new) (hb : 
     rw [hg2] at hn
     exact single_cases _ _ i n hn
   -- what `s2` holds optimistically, `s1` holds too
-  have htop21 : ∀ x, Def s2 x (top c) → Def s1 x (top c) := by
-    intro x hd
+  have hopt21 : ∀ x w, (w = top c ∨ w = .ambig) → Def s2 x w → Def s1 x w := by
+    intro x w hw hd
     cases hd with
     | inl h => exact Or.inl (R.inCache.mp h)
     | inr h =>
@@ -77,10 +78,13 @@ theorem After.restart_sub (A : After c inst dom s0 st s1 g old cur m new) (hb : 
       cases hnode2 hn with
       | inl h1 => exact Or.inr ⟨i, n, A.g0 h1.2, hgo, hv⟩
       | inr h1 =>
+        exfalso
         rw [h1.2] at hv
-        have : cur = top c := hv
-        rw [hb] at this
-        exact absurd this.symm (top_ne_bot c)
+        have e : cur = w := hv
+        rw [hb] at e
+        cases hw with
+        | inl e2 => rw [e2] at e; exact top_ne_bot c e.symm
+        | inr e2 => rw [e2] at e; exact bot_ne_ambig c e
   -- what `st` knows, `s2` knows
   have hdef2 : ∀ x v, Def st x v → ∃ v', Def s2 x v' := by
     intro x v hd
@@ -101,9 +105,16 @@ theorem After.restart_sub (A : After c inst dom s0 st s1 g old cur m new) (hb : 
     obtain ⟨v, hv⟩ := hd
     cases hx.unfold with
     | inl h2 =>
-      have : v = top c := A.i1.defFun (A.step.ext x v hv) (htop21 x h2)
-      rw [this] at hv
-      exact Or.inl hv
+      left
+      cases h2 with
+      | inl h3 =>
+        have : v = top c := A.i1.defFun (A.step.ext x v hv) (hopt21 x _ (Or.inl rfl) h3)
+        rw [this] at hv
+        exact Or.inl hv
+      | inr h3 =>
+        have : v = .ambig := A.i1.defFun (A.step.ext x v hv) (hopt21 x _ (Or.inr rfl) h3)
+        rw [this] at hv
+        exact Or.inr hv
     | inr h2 =>
       obtain ⟨v', hv'⟩ := hdef2 x v hv
       exact absurd hv' (h2.1 v')
@@ -111,25 +122,35 @@ theorem After.restart_sub (A : After c inst dom s0 st s1 g old cur m new) (hb : 
     refine Or.inr ⟨hu, ?_⟩
     cases hx.unfold with
     | inl h2 =>
-      cases h2 with
-      | inl hc =>
-        have hc1 : InCache s1 x (top c) := R.inCache.mp hc
-        have ht : Tgt c inst x := by
+      -- `x` is known to `s2` but not to `st`: it was cached in between, with its correct answer
+      have hcache : ∀ w, (w = top c ∨ w = .ambig) → Def s2 x w → Tgt c inst x := by
+        intro w hw hd
+        cases hd with
+        | inl hc =>
+          have hc1 : InCache s1 x w := R.inCache.mp hc
           cases A.i1.cacheOK x _ hc1 with
           | inl h => exact h.2
-          | inr h => exact absurd h.1 (top_ne_bot c)
-        cases (A.L.inv.tgt_sub_InG ht).unfold with
-        | inl h => exact absurd h (hu _)
-        | inr h => exact J.mono (fun j hj => Or.inr hj) h.2
-      | inr hgph =>
-        obtain ⟨i, n, hn, hgo, hv⟩ := hgph
-        cases hnode2 hn with
-        | inl h1 => exact absurd (Or.inr ⟨i, n, by rw [A.gt]; exact getElem?_prefix h1.2, hgo, hv⟩) (hu _)
-        | inr h1 =>
-          rw [h1.2] at hv
-          have : cur = top c := hv
-          rw [hb] at this
-          exact absurd this.symm (top_ne_bot c)
+          | inr h =>
+            exfalso
+            cases hw with
+            | inl e => rw [e] at h; exact top_ne_bot c h.1
+            | inr e => rw [e] at h; exact bot_ne_ambig c h.1.symm
+        | inr hgph =>
+          exfalso
+          obtain ⟨i, n, hn, hgo, hv⟩ := hgph
+          cases hnode2 hn with
+          | inl h1 => exact hu _ (Or.inr ⟨i, n, by rw [A.gt]; exact getElem?_prefix h1.2, hgo, hv⟩)
+          | inr h1 =>
+            rw [h1.2] at hv
+            have e : cur = w := hv
+            rw [hb] at e
+            cases hw with
+            | inl e2 => rw [e2] at e; exact top_ne_bot c e.symm
+            | inr e2 => rw [e2] at e; exact bot_ne_ambig c e
+      have ht : Tgt c inst x := h2.elim (hcache _ (Or.inl rfl)) (hcache _ (Or.inr rfl))
+      cases (A.L.inv.tgt_sub_InG ht).unfold with
+      | inl h => exact h.elim (fun h' => absurd h' (hu _)) (fun h' => absurd h' (hu _))
+      | inr h => exact J.mono (fun j hj => Or.inr hj) h.2
     | inr h2 => exact J.mono (fun j hj => Or.inl hj) h2.2
 
 end
